@@ -123,6 +123,7 @@ func (p *Program) verifyFuncWith(key string, forceSafety bool, extraTags []strin
 			}
 			vc.assume(t)
 		}
+		f.initOwned(env)
 		for _, r := range ct.Extra["rely"] {
 			t, err := env.evalBool(r.Expr)
 			if err != nil {
